@@ -19,6 +19,7 @@ MC_RandChoices == {1}
 MC_MsgA == <<104,105>>
 MC_MsgB == <<104>>
 MC_CommDeltas == {1}
+MC_CoordPkps == {"current"}
 MC_EMIT == TRUE
 
 ====
